@@ -32,7 +32,7 @@ def check(run, replay):
     viol, tot = [], dict(behaviours=0, steps=0, queries=0)
     for i, (f, oto) in enumerate(plans):
         out = os.path.join(run.tmp, "relres-%d.json" % i)
-        args = ["-beh", f, "-out", out] + (["-onetoone"] if oto else []) + ([] if replay else ["-budget", "600s" if thorough else "50s"])
+        args = ["-beh", f, "-out", out] + (["-onetoone"] if oto else []) + ([] if replay else ["-budget", "300s" if thorough else "50s"])
         try:
             run.run_driver(binary, args, timeout=4000)
         except vlib.Crash as c:
